@@ -441,6 +441,12 @@ func copyJobRun(js *copyJobState, op func(ctx context.Context) error) {
 // copyOp builds the client call of a job.
 func copyOp(rc *regclient.RegClient, jc CopyJob, i int, src, tgt ref.Ref, srcLayout bool, d descriptor.Descriptor, b []byte,
 	closers *sync.WaitGroup, closersN *atomic.Int32, event func(string)) func(ctx context.Context) error {
+	if jc.Op == "close-layout" {
+		if tgt.Scheme != "ocidir" {
+			return func(ctx context.Context) error { return nil }
+		}
+		return func(ctx context.Context) error { return rc.Close(ctx, tgt) }
+	}
 	if jc.Op == "" || jc.Op == "copy" || srcLayout {
 		return func(ctx context.Context) error { return rc.BlobCopy(ctx, src, tgt, d) }
 	}
@@ -517,6 +523,9 @@ func copyOp(rc *regclient.RegClient, jc CopyJob, i int, src, tgt ref.Ref, srcLay
 			r, _ := ref.New(fmt.Sprintf("%s/src:t%d", host, i))
 			return rc.ManifestPut(ctx, r, mm)
 		}
+	case "close-layout":
+		// what every command does when it is done with a layout reference, while copies into that layout are running
+		return func(ctx context.Context) error { return rc.Close(ctx, tgt) }
 	case "tags":
 		return func(ctx context.Context) error { _, err := rc.TagList(ctx, tagged); return err }
 	case "referrers":
